@@ -475,6 +475,21 @@ class P:
                 j = find_matching(self.t, self.i)
                 inner = self.t[self.i + 1:j]
                 self.i = j + 1
+                if path[-1] == "matches":
+                    # matches!(expr, pattern [if guard])  ==  match expr { pattern [if guard] => true, _ => false }
+                    sub = P(list(inner))
+                    scrut = sub.expr(no_struct=True)
+                    sub.expect(",")
+                    pat = sub.pattern()
+                    guard = None
+                    if sub.peek() == "if":
+                        sub.next()
+                        guard = sub.expr(no_struct=True)
+                    if sub.peek() == ",":
+                        sub.next()
+                    if sub.peek() is not None:
+                        raise Unsupported("matches!: trailing tokens")
+                    return ("match", scrut, [(pat, guard, ("bool", True)), (("pwild",), None, ("bool", False))])
                 return ("macro", path[-1], inner)
             if self.peek() == "{" and not no_struct and path[-1][0].isupper():
                 # struct literal
